@@ -2,7 +2,7 @@ import PlumVerif.Model.FiltersF64
 import PlumVerif.Proofs.Filters
 /-
 C20 on binary64 numbers: the `on_change` / `debounce` / `delta` laws with the comparison that
-`filters.py` really computes (`math.isclose(old, new, abs_tol=TOLERANCE)` on doubles, exact model
+`filters.py` really computes (`math.isclose(old, new, rel_tol=…, abs_tol=TOLERANCE)` on doubles, exact model
 `C20F.isclose`), over ALL sequences of finite doubles — no grid assumption.
 
 What the theorems say, and what they do not:
@@ -10,9 +10,13 @@ What the theorems say, and what they do not:
   the statement prescribes, where "differs" is `¬ isclose(last delivered, value)`.
 * `isclose` and the statement's literal reading "`|a − b|` > tolerance on the exact values" (`differs`)
   coincide on the decimal tenths / hundredths the device reports (`decimal_boundary_*`: kernel-evaluated
-  on the doubles nearest to k/10, (k+1)/10 …) and DIFFER in two named regions, both with witnesses below:
-  (1) the float subtraction rounds (`rounding_witness`); (2) magnitudes from 10^8 on, where isclose's
-  relative tolerance 1e-9·max(|a|,|b|) exceeds 0.1 (`relative_tolerance_witness`).
+  on the doubles nearest to k/10, (k+1)/10 …).
+* With `rel_tol = 0` (`relTol.num = 0`, pinned for the current source in Props/C20F64Pin.lean) the comparison is, for ALL doubles
+  at every magnitude, `|fl(new − old)| > fl(0.1)` (`changed_eq_exceeds`), hence the statement's reading wherever the float
+  subtraction is exact (`changed_eq_differs_of_exact`); the one remaining departure is that the subtraction rounds
+  (`rounding_witness`: an exact difference above the tolerance by less than half an ulp rounds back onto it).
+* While the call leaves `rel_tol` at the default 1e-9 there is a second departure: magnitudes from 10^8 on, where
+  1e-9·max(|a|,|b|) exceeds 0.1 (`relative_tolerance_witness`, conditional on that constant).
 -/
 namespace PlumVerif.C20F
 open F64 Machine
@@ -165,11 +169,177 @@ theorem delta_law (pre : List D) (v : D) :
   | none => rfl
   | some d => by_cases hc : isclose d v = true <;> simp [hc]
 
+/-! ### the relative tolerance
+
+`relTol` is whatever the translator read from the call in filters.py.  Everything above holds for any value of it.  Below:
+what follows when it is ZERO (`rel_tol=0.0`, the repaired comparison) — for ALL doubles, no magnitude restriction, the
+comparison is `|fl(new − old)| > abs_tol` (`changed_eq_exceeds`), and where the float subtraction is exact that is the
+statement's "differs by more than the tolerance" on the exact values (`changed_eq_differs_of_exact`).  The hypothesis
+`relTol.num = 0` is discharged for the current source in Props/C20F64Pin.lean. -/
+
+theorem rne_of_num_zero (q : Q) (h : q.num = 0) : rne q = ⟨0, 1⟩ := by
+  simp [rne, rneNat, h]
+
+theorem fmul_of_num_zero (r x : D) (h : r.num = 0) : fmul r x = ⟨0, 1⟩ :=
+  rne_of_num_zero _ (by simp [Q.mul, h])
+
+theorem absTol_num_nonneg : 0 ≤ absTol.num := Int.natCast_nonneg _
+
+theorem le_iff (a b : Q) : a.le b = true ↔ a.num * b.den ≤ b.num * a.den := by
+  unfold Q.le; exact decide_eq_true_iff
+
+theorem fabs_num (x : D) : (fabs x).num = (x.num.natAbs : Int) := rfl
+theorem fabs_den (x : D) : (fabs x).den = x.den := rfl
+
+theorem le_absTol_of_le_zero (x : D) (h : (fabs x).le ⟨0, 1⟩ = true) : (fabs x).le absTol = true := by
+  rw [le_iff] at *
+  rw [fabs_num, fabs_den] at *
+  have h0 : (x.num.natAbs : Int) = 0 := by
+    have : (x.num.natAbs : Int) * ((1 : Nat) : Int) ≤ 0 * (x.den : Int) := h
+    omega
+  rw [h0, Int.zero_mul]
+  exact Int.mul_nonneg absTol_num_nonneg (Int.natCast_nonneg _)
+
+theorem fsub_of_eqv (a b : D) (h : a.eqv b = true) : fsub b a = ⟨0, 1⟩ := by
+  apply rne_of_num_zero
+  simp only [Q.eqv, beq_iff_eq] at h
+  simp only [Q.add, neg, Int.neg_mul]
+  omega
+
+/-- with a zero relative tolerance `math.isclose` is the comparison of the ROUNDED difference with the absolute tolerance, for all
+doubles (equal values included: their difference is 0) -/
+theorem isclose_of_relTol_zero (h : relTol.num = 0) (a b : D) : isclose a b = (fabs (fsub b a)).le absTol := by
+  simp only [isclose, fmul_of_num_zero relTol _ h]
+  by_cases he : a.eqv b = true
+  · rw [he, fsub_of_eqv a b he]; decide
+  · have hz : (fabs (⟨0, 1⟩ : D)) = ⟨0, 1⟩ := rfl
+    simp only [Bool.not_eq_true] at he
+    rw [he, hz, Bool.false_or, Bool.or_self]
+    cases hl : (fabs (fsub b a)).le ⟨0, 1⟩
+    · simp
+    · simp [le_absTol_of_le_zero _ hl]
+
+theorem scaled2_den_pos (k : Int) (m : Nat) : 0 < (scaled2 k m).den := by
+  unfold scaled2
+  split
+  · exact Nat.pow_pos (by decide)
+  · exact Nat.one_pos
+
+theorem rneNat_den_pos (n d : Nat) : 0 < (rneNat n d).den := by
+  unfold rneNat
+  split
+  · decide
+  · exact scaled2_den_pos _ _
+
+theorem rne_den_pos (q : Q) : 0 < (rne q).den := by
+  unfold rne
+  split
+  · exact rneNat_den_pos _ _
+  · exact rneNat_den_pos _ _
+
+theorem le_of_eqv_imp {x y : Q} (t : Q) (hx : 0 < x.den) (h : x.num * y.den = y.num * x.den)
+    (hl : x.le t = true) : y.le t = true := by
+  rw [le_iff] at *
+  have hxd : (0 : Int) < x.den := by exact_mod_cast hx
+  have e1 : x.num * t.den * y.den ≤ t.num * x.den * y.den :=
+    Int.mul_le_mul_of_nonneg_right hl (Int.natCast_nonneg _)
+  have e2 : y.num * t.den * x.den ≤ t.num * y.den * x.den := by
+    calc y.num * t.den * x.den = x.num * t.den * y.den := by
+          rw [Int.mul_right_comm, ← h, Int.mul_right_comm]
+      _ ≤ t.num * x.den * y.den := e1
+      _ = t.num * y.den * x.den := Int.mul_right_comm _ _ _
+  exact Int.le_of_mul_le_mul_right e2 hxd
+
+theorem le_of_eqv {x y : Q} (t : Q) (hx : 0 < x.den) (hy : 0 < y.den) (h : x.num * y.den = y.num * x.den) :
+    x.le t = y.le t := by
+  cases hl : x.le t
+  · cases hr : y.le t
+    · rfl
+    · rw [le_of_eqv_imp t hy h.symm hr] at hl; exact hl.symm
+  · exact (le_of_eqv_imp t hx h hl).symm
+
+theorem fabs_sub_comm (a b : D) : fabs (a.add (neg b)) = fabs (b.add (neg a)) := by
+  have hn : b.num * a.den + -a.num * b.den = -(a.num * b.den + -b.num * a.den) := by
+    simp only [Int.neg_mul]; omega
+  simp only [fabs, Q.add, neg, hn, Int.natAbs_neg, Nat.mul_comm]
+
+/-- where the float subtraction is exact, "not close" is the statement's "differs by more than the tolerance" on the exact values -/
+theorem exceeds_eq_differs_of_exact (a b : D) (ha : 0 < a.den) (hb : 0 < b.den)
+    (hex : (fsub b a).eqv (b.add (neg a)) = true) : exceeds a b = differs a b := by
+  have key : (fabs (fsub b a)).le absTol = (fabs (b.add (neg a))).le absTol := by
+    apply le_of_eqv
+    · exact rne_den_pos _
+    · exact Nat.mul_pos hb ha
+    · simp only [Q.eqv, beq_iff_eq] at hex
+      have := congrArg Int.natAbs hex
+      simp only [Int.natAbs_mul, Int.natAbs_natCast] at this
+      simp only [fabs_num, fabs_den]
+      exact_mod_cast this
+  simp only [exceeds, differs, fabs_sub_comm a b, key]
+
+/-- **the comparison with `rel_tol = 0`**: for all doubles, at every magnitude, a value counts as changed iff the correctly
+rounded difference to the remembered value exceeds the absolute tolerance -/
+theorem changed_eq_exceeds (h : relTol.num = 0) (a b : D) : changed a b = exceeds a b := by
+  simp only [changed, exceeds, isclose_of_relTol_zero h]
+
+theorem changed_iff_exceeds (h : relTol.num = 0) (a b : D) :
+    changed a b = true ↔ (fabs (fsub b a)).le absTol = false := by
+  rw [changed_eq_exceeds h]; simp [exceeds]
+
+/-- … and where the float subtraction `b - a` is exact, iff the two values differ by MORE than the tolerance (the statement) -/
+theorem changed_eq_differs_of_exact (h : relTol.num = 0) (a b : D) (ha : 0 < a.den) (hb : 0 < b.den)
+    (hex : (fsub b a).eqv (b.add (neg a)) = true) : changed a b = differs a b := by
+  rw [changed_eq_exceeds h, exceeds_eq_differs_of_exact a b ha hb hex]
+
+/-- the filter laws with `rel_tol = 0`: on_change / delta deliver exactly the values whose rounded difference to the last
+delivered / the reference exceeds the tolerance; debounce counts exactly those -/
+theorem onChange_law_exceeds (h : relTol.num = 0) (pre : List D) (v : D) :
+    onChange.outs (pre ++ [v]) = onChange.outs pre ++
+      [match lastDelivered (onChange.outs pre) with
+       | none => .deliver v
+       | some d => if exceeds d v then .deliver v else .skip] := by
+  rw [onChange_law, expectOnChange]
+  cases lastDelivered (onChange.outs pre) with
+  | none => rfl
+  | some d =>
+    have he : isclose d v = !exceeds d v := by rw [← changed_eq_exceeds h d v]; simp [changed]
+    simp only [he]
+    cases exceeds d v <;> simp
+
+theorem debounce_law_exceeds (h : relTol.num = 0) (n : Nat) (pre : List D) (v : D) :
+    (debounce n).outs (pre ++ [v]) = (debounce n).outs pre ++
+      [match lastDelivered ((debounce n).outs pre) with
+       | none => .deliver v
+       | some d => if n ≤ trailing (exceeds d) (sinceDelivery pre ((debounce n).outs pre) ++ [v]) then .deliver v else .skip] := by
+  rw [debounce_law, expectDebounce]
+  cases lastDelivered ((debounce n).outs pre) with
+  | none => rfl
+  | some d =>
+    have hf : changed d = exceeds d := funext (changed_eq_exceeds h d)
+    simp only [hf]
+
+theorem delta_law_exceeds (h : relTol.num = 0) (pre : List D) (v : D) :
+    delta.outs (pre ++ [v]) = delta.outs pre ++
+      [match recorded pre with
+       | none => .skip
+       | some d => if exceeds d v then .deliver (fsub v d) else .skip] := by
+  rw [delta_law, expectDelta]
+  cases recorded pre with
+  | none => rfl
+  | some d =>
+    have he : isclose d v = !exceeds d v := by rw [← changed_eq_exceeds h d v]; simp [changed]
+    simp only [he]
+    cases exceeds d v <;> simp
+
 /-! ### the comparison at the statement's boundary (kernel-evaluated on the exact binary64 model) -/
 
-/-- the translated constants are the doubles of 0.1 and 1e-09 -/
+/-- the translated constants: the call's `abs_tol` is the source's `TOLERANCE`, which is the double of 0.1; the default `rel_tol`
+of `math.isclose` (what an absent keyword means) is the double of 1e-09 -/
+theorem absTol_is_TOLERANCE : absTol = ⟨Gen.toleranceNum, Gen.toleranceDen⟩ := by decide
 theorem absTol_is_double_of_one_tenth : absTol.eqv (dec 1 1) = true := by decide +kernel
-theorem relTol_is_double_of_1e_9 : relTol.eqv (dec 1 9) = true := by decide +kernel
+theorem default_relTol_is_double_of_1e_9 : (⟨Gen.iscloseRelTolNum, Gen.iscloseRelTolDen⟩ : D).eqv (dec 1 9) = true := by decide +kernel
+/-- the translator's value was confirmed by its probes of `on_change` (read from the source and confirmed, or found by the probes alone) -/
+theorem relTol_confirmed_by_probes : Gen.numericCompareSource = "source+probes" ∨ Gen.numericCompareSource = "probes" := by decide
 
 /-- decimal inputs exactly 0.1 apart, as the doubles nearest to them.  Whether the SECOND is a change
 depends on the binary values: 20.1 → 20.2 is not (the doubles are 0.0999999999999978… apart),
@@ -208,11 +378,16 @@ def rw_b : D := absTol                           -- the double of 0.1
 subtraction rounds it back to the tolerance: the code says "unchanged", the literal reading "changed" -/
 theorem rounding_witness : differs rw_a rw_b = true ∧ isclose rw_a rw_b = true := by decide +kernel
 
-/-- region (2): from 10^8 on the relative tolerance of `math.isclose` governs: 200000000.0 and
-200000000.15 differ by more than 0.1, and `on_change` does not deliver the second -/
-theorem relative_tolerance_witness :
+/-- region (2), ONLY while the call leaves `rel_tol` at math.isclose's default 1e-09 (the hypothesis is false, and this says nothing,
+once the source passes `rel_tol=0.0`): from 10^8 on the relative tolerance governs: 200000000.0 and 200000000.15 differ by more than
+0.1, and `on_change` does not deliver the second -/
+theorem relative_tolerance_witness : relTol.eqv (dec 1 9) = true →
     differs (dec 200000000 0) (dec 20000000015 2) = true ∧ isclose (dec 200000000 0) (dec 20000000015 2) = true ∧
     onChange.outs [dec 200000000 0, dec 20000000015 2] = [.deliver (dec 200000000 0), .skip] := by decide +kernel
+
+/-- the same pair with `rel_tol = 0`: delivered (kernel-evaluated; also an instance of `onChange_law_exceeds`) -/
+theorem large_step_delivered_when_relTol_zero : relTol.num = 0 →
+    onChange.outs [dec 200000000 0, dec 20000000015 2] = [.deliver (dec 200000000 0), .deliver (dec 20000000015 2)] := by decide +kernel
 
 /-- below 10^6 (the magnitude of everything the library dispatches) the same step IS delivered -/
 example : onChange.outs [dec 200000 0, dec 20000015 2] = [.deliver (dec 200000 0), .deliver (dec 20000015 2)] := by
